@@ -313,7 +313,8 @@ class CodecScenario:
             fields = st.freeze(args[1])
             total = kwargs.get("total", K(True))
             if isinstance(fields, R) and fields.kind == "dict":
-                return R("td", __module__=K("<created>"), __qualname__=name, __name__=name, __total__=total, __annotations__=fields)
+                # CPython/mypy_extensions: the new class is stamped with the module of the CALLER of TypedDict(...)
+                return R("td", __module__=K(self.ri.cur_fi.module.name), __qualname__=name, __name__=name, __total__=total, __annotations__=fields)
             return None
         # ---- compat predicates ------------------------------------------------------
         callee = self.ri.resolve(call, fval)
